@@ -3,7 +3,10 @@ package certs
 // C04 — certificate verification accepts exactly the valid chains.
 //
 //   TestVerifC04Forest         rapid: forged forests + a SEQUENCE of queries against one Store; VerifyLeaf == nil <=> model,
-//                              VerifyParent == nil <=> pairing/fingerprint/signature predicate, at every step
+//                              VerifyParent == nil <=> pairing/fingerprint/signature predicate, at every step; steps also
+//                              marshal a parsed certificate and overwrite the result (later answers must not change) and
+//                              change a field of a parsed certificate, Marshal + ReadFrom it and query THAT object (judged
+//                              for the changed content under the old signature)
 //   TestVerifC04Issued         rapid: chains made only by the issuing functions verify at every instant inside all three windows
 //   TestVerifC04BitFlips       enumeration: every single-bit flip (and raw field overwrite) of leaf / intermediate / root bytes
 //   TestVerifC04Substitutions  enumeration: properly signed (and stale-signed) single-field substitutions, through the model
